@@ -206,8 +206,19 @@ pub fn source_for(case: &Json) -> String {
             s.push_str(&format!("  gin{i} AT {} : {};\n", addr_text('I', &v.size, v.byte, v.bit), v.ty));
         }
     }
+    let event = case["event"].as_bool().unwrap_or(false);
+    if event {
+        // an event task whose SINGLE variable is itself an input: it must see this cycle's latched value
+        s.push_str("  gtrig AT %IX7.6 : BOOL;\n");
+    }
     s.push_str("END_VAR\nTASK T0 (INTERVAL := T#1ms, PRIORITY := 0);\nTASK T1 (INTERVAL := T#1ms, PRIORITY := 1);\n");
+    if event {
+        s.push_str("TASK TE (SINGLE := gtrig, PRIORITY := 0);\nPROGRAM PE WITH TE : ProgE;\n");
+    }
     s.push_str("PROGRAM PA WITH T0 : ProgA;\nPROGRAM PM WITH T1 : ProgM;\nPROGRAM PB : ProgB;\nEND_CONFIGURATION\n\n");
+    if event {
+        s.push_str(&format!("PROGRAM ProgE\nVAR\n  ecnt AT %QW{} : UINT;\nEND_VAR\necnt := ecnt + UINT#1;\nEND_PROGRAM\n\n", OUT_LEN - 2));
+    }
     for (pi, pname) in ["ProgA", "ProgM", "ProgB"].iter().enumerate() {
         s.push_str(&format!("PROGRAM {pname}\nVAR_EXTERNAL\n  g_div : DINT;\n"));
         for (i, v) in inputs.iter().enumerate() {
@@ -451,6 +462,9 @@ impl Check for C07Check {
             out_arrays.push(json!({"size": size, "ty": ty, "byte": base, "lo": cfg.range(-2, 3), "len": len, "elems": elems}));
         }
         let prefill: Vec<u64> = (0..OUT_LEN).map(|_| cfg.below(256)).collect();
+        let mut extra = rng.fork("extra");
+        let event = extra.chance(1, 2) && next_byte <= OUT_LEN - 2;
+        let same_names = extra.chance(1, 4);
         let n_ops = match tier {
             Tier::Quick => o.usize(3, 25),
             Tier::Thorough => o.usize(5, 60),
@@ -481,6 +495,8 @@ impl Check for C07Check {
         }
         json!({
             "n_drivers": n_drivers,
+            "same_names": same_names,
+            "event": event,
             "inputs": inputs,
             "mems": cfg.below(4),
             "bitwords": bitwords,
@@ -493,7 +509,7 @@ impl Check for C07Check {
     }
 
     fn run(&self, case: &Json, stats: &mut Stats) -> Result<(), Violation> {
-        for p in ["probe.overlapping_inputs", "probe.bit_adjacent_outputs", "probe.forced_input_seen", "probe.forced_output_published", "probe.io_write_latched", "probe.faulted_cycle_checked", "probe.input_changed_between_reads", "probe.bit_cleared_above_set_lower_bits", "probe.array_with_nonzero_lower_bound_bound_to_io"] {
+        for p in ["probe.overlapping_inputs", "probe.bit_adjacent_outputs", "probe.forced_input_seen", "probe.forced_output_published", "probe.io_write_latched", "probe.faulted_cycle_checked", "probe.input_changed_between_reads", "probe.bit_cleared_above_set_lower_bits", "probe.array_with_nonzero_lower_bound_bound_to_io", "probe.drivers_share_a_name", "probe.event_task_fired_on_latched_input", "probe.event_trigger_pulse_of_one_cycle"] {
             stats.add(p, 0);
         }
         let src = source_for(case);
@@ -507,7 +523,13 @@ impl Check for C07Check {
         rt.io_mut().resize(IN_LEN, OUT_LEN, MEM_LEN);
         let prefill: Vec<u8> = (0..OUT_LEN).map(|i| case["prefill"][i].as_u64().unwrap_or(0) as u8).collect();
         rt.io_mut().outputs_mut().copy_from_slice(&prefill);
-        let drivers = world::attach_drivers(&mut rt, n_drivers);
+        let same_names = case["same_names"].as_bool().unwrap_or(false);
+        if same_names && n_drivers > 1 {
+            stats.inc("probe.drivers_share_a_name");
+        }
+        let drivers = world::attach_drivers_named(&mut rt, n_drivers, same_names);
+        let event = case["event"].as_bool().unwrap_or(false);
+        let (mut prev_trig, mut ecnt) = (false, 0u64);
         let debug = rt.enable_debug();
         {
             let mut d = drivers.lock().unwrap();
@@ -819,6 +841,26 @@ impl Check for C07Check {
                             if a["lo"].as_i64().unwrap_or(0) != 0 {
                                 stats.inc("probe.array_with_nonzero_lower_bound_bound_to_io");
                             }
+                        }
+                        // event task on an input-bound SINGLE variable: fires in the cycle whose latched bytes show the rising edge
+                        if event {
+                            let trig = decode(&in_model, "X", 7, 6) == 1;
+                            if trig && !prev_trig {
+                                ecnt = (ecnt + 1) & 0xffff;
+                                stats.inc("probe.event_task_fired_on_latched_input");
+                            }
+                            if !trig && prev_trig {
+                                stats.inc("probe.event_trigger_pulse_of_one_cycle");
+                            }
+                            let fired = log.iter().any(|e| matches!(e, DriverEvent::Rt(s) if s == "TaskStart:TE"));
+                            if fired != (trig && !prev_trig) {
+                                return Err(Violation::new(
+                                    "latch/event-task-not-on-latched-input",
+                                    format!("op {opi}: latched trigger bit {trig} (previous cycle {prev_trig}) but the event task {} run: {}", if fired { "did" } else { "did not" }, render_log(&log)),
+                                ));
+                            }
+                            prev_trig = trig;
+                            encode(&mut expected_out, "W", OUT_LEN - 2, 0, ecnt);
                         }
                         // ---- published bytes
                         let image = rt.io().outputs().to_vec();
